@@ -15,6 +15,7 @@ import (
 
 	ctrlconfig "github.com/jcmoraisjr/haproxy-ingress/pkg/controller/config"
 	"github.com/jcmoraisjr/haproxy-ingress/pkg/controller/reconciler"
+	"github.com/jcmoraisjr/haproxy-ingress/pkg/controller/services"
 	"github.com/jcmoraisjr/haproxy-ingress/pkg/converters"
 	"github.com/jcmoraisjr/haproxy-ingress/pkg/converters/tracker"
 	convtypes "github.com/jcmoraisjr/haproxy-ingress/pkg/converters/types"
@@ -37,6 +38,9 @@ type Options struct {
 	ConfigMapName    string // "ns/name" of the global ConfigMap ("" = none)
 	KeepLog          bool
 	Leader           bool
+	// MirrorCache reads the cluster through the harness's own mirror of the cache facade (world/cache.go)
+	// instead of the REAL facade of pkg/controller/services over a fake client (the default).
+	MirrorCache bool
 }
 
 // Pipeline = real watchers -> real converters + tracker -> real haproxy.Instance -> files + simulated HAProxy.
@@ -57,6 +61,7 @@ type Pipeline struct {
 	handlers map[string]reconciler.VerifHandler
 	Updates  int
 	LastErr  error
+	real     *realCache
 }
 
 var tmpRoot = filepath.Join(os.TempDir(), "hv-world")
@@ -102,9 +107,22 @@ func NewPipeline(w *World, opt Options) (*Pipeline, error) {
 	haproxy.VerifSetSockets(p.Instance, p.Sim.Master(), p.Sim.Admin())
 	fake := convtypes.CrtFile{Filename: filepath.Join(dir, "tls", "_fake.pem"), SHA1Hash: "fake", Certificate: (&Secret{DNSNames: []string{"localhost"}}).certificate()}
 	_ = os.WriteFile(fake.Filename, []byte("FAKE\n"), 0o644)
+	var cacheImpl convtypes.Cache = p.Cache
+	var validator services.IsValidResource = p.Cache
+	if !opt.MirrorCache {
+		rc, rfake, err := newRealCache(dir, opt, p.Tracker, &dyn)
+		if err != nil {
+			return nil, err
+		}
+		p.real = rc
+		fake = rfake
+		cacheImpl, validator = rc.facade, rc.facade
+		// the informer cache of a starting controller already lists everything
+		p.loadWorld()
+	}
 	p.convOpt = &convtypes.ConverterOptions{
 		Logger:           p.Log,
-		Cache:            p.Cache,
+		Cache:            cacheImpl,
 		Tracker:          p.Tracker,
 		DynamicConfig:    &dyn,
 		LocalFSPrefix:    dir,
@@ -121,7 +139,7 @@ func NewPipeline(w *World, opt Options) (*Pipeline, error) {
 	}
 	ccfg := &ctrlconfig.Config{ConfigMapName: opt.ConfigMapName, ControllerName: opt.Class.ControllerName, IngressClass: opt.Class.IngressClass,
 		WatchIngressWithoutClass: opt.Class.WatchIngressWithoutClass, IngressClassPrecedence: opt.Class.IngressClassPrecedence}
-	p.Watchers = reconciler.VerifCreateWatchers(context.Background(), ccfg, p.Cache)
+	p.Watchers = reconciler.VerifCreateWatchers(context.Background(), ccfg, validator)
 	p.queue = &reconciler.VerifQueue{}
 	p.handlers = map[string]reconciler.VerifHandler{}
 	for _, h := range p.Watchers.Handlers() {
@@ -159,9 +177,62 @@ func predicatesAllow(prs []predicate.Predicate, op string, old, obj client.Objec
 	return true
 }
 
+// loadWorld copies the whole cluster state into the fake client of the real cache facade
+func (p *Pipeline) loadWorld() {
+	w := p.W
+	for _, k := range SortedKeys(w.IngressClasses) {
+		p.real.apply("create", w.IngressClasses[k])
+	}
+	for _, k := range SortedKeys(w.Secrets) {
+		p.real.apply("create", w.Secrets[k].RealObject())
+	}
+	for _, k := range SortedKeys(w.Services) {
+		p.real.apply("create", w.Services[k])
+	}
+	for _, k := range SortedKeys(w.Endpoints) {
+		p.real.apply("create", w.Endpoints[k])
+	}
+	for _, k := range SortedKeys(w.Pods) {
+		p.real.apply("create", w.Pods[k])
+	}
+	for _, k := range SortedKeys(w.Namespaces) {
+		p.real.apply("create", w.Namespaces[k])
+	}
+	for _, k := range SortedKeys(w.Ingresses) {
+		p.real.apply("create", w.Ingresses[k])
+	}
+}
+
+// syncClient mirrors one event into the informer cache (fake client) before the handler sees it
+func (p *Pipeline) syncClient(op string, old, obj client.Object) {
+	if p.real == nil {
+		return
+	}
+	target := obj
+	if target == nil {
+		target = old
+	}
+	if s, ok := target.(*api.Secret); ok {
+		key := s.Namespace + "/" + s.Name
+		if op == "delete" {
+			p.real.apply("delete", &api.Secret{ObjectMeta: s.ObjectMeta})
+			return
+		}
+		if ws, found := p.W.Secrets[key]; found {
+			p.real.apply(op, ws.RealObject())
+		}
+		return
+	}
+	if _, ok := target.(*api.ConfigMap); ok {
+		return
+	}
+	p.real.apply(op, target)
+}
+
 // Event delivers one informer event (op = create|update|delete) through the real predicates and
 // the real handler of the object's kind. It returns false when a predicate filtered it out.
 func (p *Pipeline) Event(op string, old, obj client.Object) bool {
+	p.syncClient(op, old, obj)
 	var probe client.Object = obj
 	if probe == nil {
 		probe = old
